@@ -43,7 +43,7 @@ open PycModel.DeclSkel PycModel.DeclParse PycModel.TransUnit in
 prescribes.**  The fragment: any number of external declarations, each a file-scope declaration
 (specifiers: qualifiers, storage classes other than `typedef`, function specifiers, type keywords;
 init-declarators with pointers, qualifiers, array and `()` suffixes and assignment-expression
-initializers) or a function definition - with `()`, `( void )` or a prototype parameter list of named
+initializers), a prototype `specifiers name ( parameters ) {, init-declarator} ;` or a function definition - with `()`, `( void )` or a prototype parameter list of named
 parameters, whose names are registered in the body's scope - whose body is a block of such declarations and of the
 statements of `wellformed_statements_are_accepted` (which nest to any depth, nested blocks with
 declarations of their own and `for` loops whose first clause is a declaration included); every
@@ -172,6 +172,45 @@ example :
     simp only [prog, List.mem_singleton] at he
     subst he
     exact ⟨hint, hval, rfl, trivial, .cons _ _ (StmtSkel.WFS.retSome _ (.const _ _ _ _ (by decide))) .nil⟩
+  exact parse_translation_unit prog hw 200 (by decide)
+
+open PycModel.DeclSkel PycModel.DeclParse PycModel.TransUnit PycModel.Params in
+/-- non-vacuity, a prototype, checked by the kernel: `extern int add ( int a , const int * b ) ;` -/
+example :
+    (parseCore 200 ([("EXTERN", "extern"), ("INT", "int"), ("ID", "add"), ("LPAREN", "("), ("INT", "int"), ("ID", "a"), ("COMMA", ","),
+        ("CONST", "const"), ("INT", "int"), ("TIMES", "*"), ("ID", "b"), ("RPAREN", ")"), ("SEMI", ";")].map (fun t => SEv.tok t.1 t.2) ++
+        [.eof])).1 =
+    .ast (mk .FileAST none [.list [
+      mk .Decl (tc 2) [.str "add", .list [], .list [], .list [.str "extern"], .list [],
+        mk .FuncDecl (tc 2) [
+          mk .ParamList (tc 5) [.list [
+            mk .Decl (tc 5) [.str "a", .list [], .list [], .list [], .list [],
+              mk .TypeDecl (tc 5) [.str "a", .list [], .none, mk .IdentifierType (tc 4) [.list [.str "int"]]], .none, .none],
+            mk .Decl (tc 9) [.str "b", .list [.str "const"], .list [], .list [], .list [],
+              mk .PtrDecl (tc 9) [.list [],
+                mk .TypeDecl (tc 10) [.str "b", .list [.str "const"], .none, mk .IdentifierType (tc 8) [.list [.str "int"]]]],
+              .none, .none]]],
+          mk .TypeDecl (tc 2) [.str "add", .list [], .none, mk .IdentifierType (tc 1) [.list [.str "int"]]]],
+        .none, .none]]]) := by
+  let prog : List Ext :=
+    [.proto { specs := [("EXTERN", "extern"), ("INT", "int")],
+              fd := { x := "add", params := .named { first := { specs := [("INT", "int")], d := .name "a" },
+                                                     more := [{ specs := [("CONST", "const"), ("INT", "int")], d := .ptr [[]] (.name "b") }] } },
+              more := [] }]
+  have hint : SpecToks false [("INT", "int")] := by simp [SpecToks, typeSpecSimple]
+  have hval : SpecVals [("INT", "int")] := by
+    intro t ht; simp only [List.mem_singleton] at ht; subst ht; exact ⟨by decide, by decide⟩
+  have hw : ∀ e ∈ prog, WFExt (fun _ => false) e := by
+    intro e he
+    simp only [prog, List.mem_singleton] at he
+    subst he
+    refine ⟨by simp [SpecToks, storage5, typeSpecSimple, isTypeTok], ?_, rfl, ⟨⟨hint, hval, rfl, .name _⟩, ?_⟩, by intro it h; cases h⟩
+    · intro t ht; simp only [List.mem_cons, List.not_mem_nil, or_false] at ht
+      rcases ht with rfl | rfl <;> exact ⟨by decide, by decide⟩
+    · intro p hp; simp only [List.mem_singleton] at hp; subst hp
+      refine ⟨by simp [SpecToks, quals3, typeSpecSimple, isTypeTok], ?_, rfl, .ptr _ _ (by simp) (by simp) (.name _) rfl⟩
+      intro t ht; simp only [List.mem_cons, List.not_mem_nil, or_false] at ht
+      rcases ht with rfl | rfl <;> exact ⟨by decide, by decide⟩
   exact parse_translation_unit prog hw 200 (by decide)
 
 end PycModel.C01
